@@ -100,6 +100,7 @@ NameOf(len, first, sp, pos) ==
   ELSE LET p == CASE pos = "second" -> 2 [] pos = "mid" -> (len + 2) \div 2 [] pos = "last" -> len
        IN  <<R(first, 1)>> \o Fill("alnum", p - 2) \o <<R(IF sp = "none" THEN "alnum" ELSE sp, 1)>>
            \o Fill("alnum", len - p)
+\* (for units the earliest slot, "second", is index 1: a unit has no distinguished first character)
 UnitOf(len, sp, pos) ==
   IF len = 0 THEN <<>>
   ELSE LET p == CASE pos = "second" -> 1 [] pos = "mid" -> (len + 1) \div 2 [] pos = "last" -> len
@@ -121,8 +122,8 @@ CrossCases == {Case(n, "z", u, "z", "") :
                        <<R("asciifill", 64)>>, <<R("lower", 1), R("nul", 1), R("lower", 70)>>}}
 \* byte sweeps: the harness substitutes EVERY byte of class `sweep` for the run of that class
 ByteCases == {Case(<<R("lower", 1), R(c, 1), R("alnum", 1)>>, "z", GoodUnit, "z", c) : c \in BaseClasses}
-        \cup {Case(<<R(c, 1), R("alnum", 2)>>, "z", <<>>, "z", c) : c \in BaseClasses \ {"lower"}}
-        \cup {Case(<<R("upper", 1)>>, "z", <<R("asciifill", 1), R(c, 1)>>, "z", c) : c \in BaseClasses \ {"upper"}}
+        \cup {Case(<<R(c, 1), R("alnum", 2)>>, "z", <<>>, "z", c) : c \in BaseClasses}
+        \cup {Case(<<R("upper", 1)>>, "z", <<R("asciifill", 1), R(c, 1)>>, "z", c) : c \in BaseClasses}
 
 Cases == CASE Part = "name" -> NameCases [] Part = "unit" -> UnitCases
            [] Part = "cross" -> CrossCases [] Part = "bytes" -> ByteCases
